@@ -28,7 +28,8 @@ func (c09) Meta() fw.Meta {
 			"self-diff and diff of byte-identical files exit 0; diff(a,b) and diff(b,a) run in the same second give the same verdict and mirrored records; different layouts => exit 2; glob: verdict 1 <=> any file differs and every matched file has its now: line. " +
 			"non-trivial = scenario whose expected set is non-empty AND a proper subset of the compared slots; distinct by scenario parameters." +
 			" Every 6th single-file case has BOTH sides on one server (single scheduler thread, socket writes delayed by 20 ms via strace), with long archives (150-250k points) every 24th case and six other clients reading the same files meanwhile." +
-			" Even single-file cases use a file name containing +, & and =; glob cases end with a run holding both an unequal-layout pair and a differing pair (exit 2 demanded).",
+			" Even single-file cases use a file name containing +, & and =; glob cases end with a run holding both an unequal-layout pair and a differing pair (exit 2 demanded)." +
+			" Every glob case is also run against a destination base that does not exist (exit 1, one err: line per file).",
 		Assumptions: []string{
 			"the oracle uses the clock the command printed; the symmetry relation is only judged when both runs printed the same clock",
 			"a glob pattern that matches nothing on the source side is not a 'missing file' and is not judged here (C16 covers it)",
